@@ -1,0 +1,139 @@
+//go:build verif
+
+package main
+
+// Trace recorder and scheduler gate for the verification machinery in /verif.
+// Only compiled with -tags verif, and only active when the environment
+// variable VERIF_TRACE names a file: every verifhook.At() call then appends
+// one ND-JSON record to that file, numbered with a per-process sequence
+// number taken under the recorder's own mutex (so that events of one process
+// are totally ordered without consulting any clock).
+//
+// When VERIF_GATE_DIR is set as well, a hook point blocks for as long as a
+// file named after the point exists in that directory: an orchestrator can
+// park the process exactly at that point (and e.g. SIGKILL it there). The gate
+// file may contain a JSON object; then only events whose recorded fields
+// match all of its members are parked. While parked, "<point>.reached" exists
+// in the same directory and contains the parked event.
+
+import (
+	"bytes"
+	"encoding/json"
+	"fmt"
+	"log"
+	"os"
+	"path/filepath"
+	"sync"
+	"time"
+
+	"github.com/robustirc/robustirc/internal/robust"
+	"github.com/robustirc/robustirc/internal/verifhook"
+)
+
+type verifTracer struct {
+	mu      sync.Mutex
+	f       *os.File
+	seq     uint64
+	gateDir string
+}
+
+func init() {
+	path := os.Getenv("VERIF_TRACE")
+	if path == "" {
+		return
+	}
+	f, err := os.OpenFile(path, os.O_CREATE|os.O_WRONLY|os.O_APPEND, 0644)
+	if err != nil {
+		log.Fatalf("VERIF_TRACE: %v", err)
+	}
+	t := &verifTracer{f: f, gateDir: os.Getenv("VERIF_GATE_DIR")}
+	verifhook.Fn = t.at
+	t.at("process.start", "pid", os.Getpid())
+}
+
+// fields flattens the key/value pairs of a hook call into a JSON-able record.
+func (t *verifTracer) fields(point string, kv []interface{}) map[string]interface{} {
+	rec := map[string]interface{}{"point": point}
+	for i := 0; i+1 < len(kv); i += 2 {
+		key := fmt.Sprint(kv[i])
+		switch v := kv[i+1].(type) {
+		case *robust.Message:
+			rec["type"] = int64(v.Type)
+			rec["session"] = v.Session.Id
+			rec["cmid"] = v.ClientMessageId
+		case *FSM:
+			first, _ := v.ircstore.FirstIndex()
+			last, _ := v.ircstore.LastIndex()
+			rec["first"] = first
+			rec["last"] = last
+			var included uint64
+			for idx := range v.lastSnapshotState {
+				if idx > included {
+					included = idx
+				}
+			}
+			rec["included"] = included
+		default:
+			rec[key] = v
+		}
+	}
+	return rec
+}
+
+// record numbers the event and appends it to the trace file.
+func (t *verifTracer) record(rec map[string]interface{}) []byte {
+	t.mu.Lock()
+	defer t.mu.Unlock()
+	t.seq++
+	rec["seq"] = t.seq
+	b, err := json.Marshal(rec)
+	if err != nil {
+		b = []byte(fmt.Sprintf(`{"point":%q,"seq":%d,"error":%q}`, rec["point"], t.seq, err.Error()))
+	}
+	t.f.Write(append(b, '\n'))
+	return b
+}
+
+// gated reports whether the gate file for the event's point exists and its
+// filter (if any) matches the event.
+func (t *verifTracer) gated(gate string, rec map[string]interface{}) bool {
+	b, err := os.ReadFile(gate)
+	if err != nil {
+		return false
+	}
+	var filter map[string]interface{}
+	dec := json.NewDecoder(bytes.NewReader(b))
+	dec.UseNumber() // ids exceed the float64 mantissa
+	if len(b) == 0 || dec.Decode(&filter) != nil {
+		return true
+	}
+	for key, want := range filter {
+		if fmt.Sprint(rec[key]) != fmt.Sprint(want) {
+			return false
+		}
+	}
+	return true
+}
+
+func (t *verifTracer) at(point string, kv ...interface{}) {
+	rec := t.fields(point, kv)
+	line := t.record(rec)
+	if t.gateDir == "" {
+		return
+	}
+	gate := filepath.Join(t.gateDir, point)
+	if !t.gated(gate, rec) {
+		return
+	}
+	reached := gate + ".reached"
+	if err := os.WriteFile(reached+".tmp", line, 0644); err == nil {
+		os.Rename(reached+".tmp", reached)
+	}
+	for {
+		if _, err := os.Stat(gate); err != nil {
+			break
+		}
+		time.Sleep(2 * time.Millisecond)
+	}
+	os.Remove(reached)
+}
